@@ -263,6 +263,7 @@ pub fn run(a: &Args, rep: &mut Report) {
     let q = a.tier == "quick";
     let n = ((if q { 160_000.0 } else { 8_000_000.0 }) * a.scale) as u64 / a.nshards;
     let mut batch: Vec<Pre> = Vec::new();
+    let mut par_batches = 0u32;
     let with_jit = cfg!(any(feature = "std", feature = "stdlite"));
     // far local calls (more than 32767 instructions away) with nested calls and calculators
     let far: Vec<Case> = if cfg!(miri) || a.shard >= 6 { vec![] } else { [33_000usize, 70_000].iter().map(|n| crate::genp::gen_long(&mut rng, *n + a.shard as usize * 17, 4)).collect() };
@@ -299,6 +300,11 @@ pub fn run(a: &Args, rep: &mut Report) {
         batch.push(p);
         if batch.len() >= 256 || k + 1 == n + nfar {
             check_interp(rep, "C07", &batch, true);
+            // call graphs on 8 threads at once, each on its own VM: frames and depth limits are per execution
+            par_batches += 1;
+            if par_batches <= 3 {
+                crate::mon_par::exec_par(rep, "C07", &batch, if par_batches == 2 && with_jit { Engine::Jit } else { Engine::Interp });
+            }
             if with_jit {
                 // evaluations were already counted by check_interp: use a scratch report for counts
                 let before = rep.get("evaluations");
